@@ -252,8 +252,69 @@ func C20(c *core.Ctx) {
 					}
 				}
 			})
+			// ... and leaves the walk only when the cursor is exhausted: every branch that
+			// exits the ancestor loop tests the cursor against nil (stopping at the first
+			// node without pending entries would skip the Interests above it)
+			core.InstrsDeep(od, func(in ssa.Instruction) {
+				ci, ok := in.(ssa.CallInstruction)
+				if !ok {
+					return
+				}
+				id, ok := core.Callee(ci.Common())
+				if !ok || id.Name != "Parent" || !core.InLoop(in.Block()) {
+					return
+				}
+				// the cursor: the loop-header phi that receives this Parent() result
+				var cursor *ssa.Phi
+				for _, r := range core.Refs(ci.Value()) {
+					if ph, ok := r.(*ssa.Phi); ok && loopHeader(ph.Block()) == ph.Block() {
+						cursor = ph
+					}
+				}
+				if cursor == nil {
+					return
+				}
+				h := cursor.Block()
+				fn := h.Parent()
+				inBody := func(b *ssa.BasicBlock) bool {
+					if b == h {
+						return true
+					}
+					for _, x := range enclosingLoops(b) {
+						if x == h {
+							return true
+						}
+					}
+					return false
+				}
+				for _, b := range fn.Blocks {
+					if !inBody(b) || len(b.Instrs) == 0 {
+						continue
+					}
+					switch t := b.Instrs[len(b.Instrs)-1].(type) {
+					case *ssa.Return:
+						asc = false
+					case *ssa.If:
+						leaves := func(x *ssa.BasicBlock) bool {
+							if inBody(x) {
+								return false
+							}
+							// a branch into a panic is not a way of ending the walk
+							_, isPanic := x.Instrs[len(x.Instrs)-1].(*ssa.Panic)
+							return !isPanic
+						}
+						if !leaves(b.Succs[0]) && !leaves(b.Succs[1]) {
+							continue
+						}
+						op, x, y, okC := core.Cmp(t.Cond)
+						if !(okC && (op == token.EQL || op == token.NEQ) && core.IsNilConst(y) && core.Strip(x) == ssa.Value(cursor)) {
+							asc = false
+						}
+					}
+				}
+			})
 			pm := core.FindCallsDeep(od, core.CalleeID{Pkg: "std/engine/basic", Recv: "*", Name: "PrefixMatch"})
-			c.Decide(asc && len(pm) == 1, "R20.2", "data-resolves-all-ancestors", p.Pos(od.Pos()), "onData walks Parent() from the longest-prefix node", "onData does not walk from the longest-prefix node to the root: pending Interests for shorter prefixes are not resolved by the Data")
+			c.Decide(asc && len(pm) == 1, "R20.2", "data-resolves-all-ancestors", p.Pos(od.Pos()), "onData walks Parent() from the longest-prefix node and leaves the walk only when the cursor is nil", "onData does not walk from the longest-prefix node all the way to the root (the ancestor loop can stop before the cursor is nil): pending Interests for shorter prefixes are not resolved by the Data")
 		}
 	}
 	// timeout closure and scheduling in Express
